@@ -30,7 +30,7 @@ type Case struct {
 
 var (
 	heapAddr   = regexp.MustCompile(`0x[0-9a-fA-F]{6,}`)
-	fmtVerb    = regexp.MustCompile(`%!\w?\(`)
+	fmtVerb    = regexp.MustCompile(`%!.?\((?:[a-zA-Z0-9.\[\]*]+=|MISSING|EXTRA|NOVERB|BADINDEX|BADWIDTH|BADPREC)`)
 	structDump = regexp.MustCompile(`(=|&)\{`)
 )
 
@@ -258,7 +258,7 @@ func nontrivialCase(c Case) bool {
 
 // ---- generation
 
-var tokens = []string{"{", "}", "[", "]", ",", ":", "\"", "\\", "a", "1", "0", "-", ".", "e", "true", "null", "@a", "|", "//", "/*", "*/", "*", "/", "#", "##", "###", " ", "\t", "min", "or", "enum", "type", "{min: 1}", "-", "x", "\"a\"", "@"}
+var tokens = []string{"%", "%d", "100%", "%s%s", "{", "}", "[", "]", ",", ":", "\"", "\\", "a", "1", "0", "-", ".", "e", "true", "null", "@a", "|", "//", "/*", "*/", "*", "/", "#", "##", "###", " ", "\t", "min", "or", "enum", "type", "{min: 1}", "-", "x", "\"a\"", "@"}
 
 // mutate applies one token-level mutation that never splits a CRLF pair
 func mutate(t *rapid.T, s string) string {
@@ -308,7 +308,24 @@ func mutate(t *rapid.T, s string) string {
 }
 
 func genCase(t *rapid.T) Case {
-	switch rapid.IntRange(0, 11).Draw(t, "entry") {
+	switch rapid.IntRange(0, 13).Draw(t, "entry") {
+	case 12, 13:
+		// an error on a line longer than the 200 bytes the renderer quotes, not on the first line
+		long := strings.Repeat(rapid.SampledFrom([]string{"x", "ab ", "é", "%d"}).Draw(t, "fill"), rapid.IntRange(70, 300).Draw(t, "longlen"))
+		nl := rapid.SampledFrom([]string{"\n", "\r\n", "\r"}).Draw(t, "nl")
+		lead := strings.Repeat(nl, rapid.IntRange(0, 3).Draw(t, "leadlines"))
+		switch rapid.IntRange(0, 4).Draw(t, "longkind") {
+		case 0:
+			return Case{Entry: "schema", Project: &sut.Project{Root: lead + "{" + nl + "  \"a\": 1," + nl + "  \"long\": \"" + long + "\" // {maxLength: 3}" + nl + "}"}}
+		case 1:
+			return Case{Entry: "schema", Project: &sut.Project{Root: lead + "[" + nl + "  1, // " + long + nl + "  2 // {min: 3} - " + long + nl + "]"}}
+		case 2:
+			return Case{Entry: "doc", Text: lead + "[" + nl + " 1," + nl + " \"" + long + "\" x" + nl + "]"}
+		case 3:
+			return Case{Entry: "enum", Text: lead + "[" + nl + "  \"" + long + "\"," + nl + "  \"" + long + "\"" + nl + "]"}
+		default:
+			return Case{Entry: "schema", Project: &sut.Project{Root: "{" + nl + "  \"t\": @t" + nl + "}", Types: []sut.Named{{Name: "@t", Text: lead + "{" + nl + "  \"k\": 1," + nl + "  \"" + long + "\": 2 // {min: 5}" + nl + "}"}}}}
+		}
 	case 10, 11:
 		// arbitrary reference graphs (self loops, mutual loops, missing types, odd file names)
 		gp := gen.GraphProject(t)
@@ -393,7 +410,7 @@ func registerAll() {
 
 func TestPropMutations(t *testing.T) {
 	registerAll()
-	ev.Rapid(t, "mutations", ev.N(3000, 40000), genCase, judgedMutations)
+	ev.Rapid(t, "mutations", ev.N(8000, 40000), genCase, judgedMutations)
 }
 
 // every truncation of the corpus texts under the three newline conventions
